@@ -188,7 +188,7 @@ fn apply(d: &mut Ddnnf, k: usize, e: &Edit, s: &mut String, seed: u64) -> bool {
             true
         }
         Err(msg) => {
-            writeln!(s, "impl panic {}", msg).unwrap();
+            writeln!(s, "impl panic {} (at {})", msg, PANIC_AT.lock().unwrap()).unwrap();
             false
         }
     }
@@ -668,7 +668,21 @@ fn run_histories(out: &mut dyn Write) {
     let _ = std::fs::remove_dir_all(&dir);
 }
 
+static PANIC_AT: std::sync::Mutex<String> = std::sync::Mutex::new(String::new());
+
+/// panic hook of this kind: silent, remembers where the panic was raised
+fn install_hook() {
+    std::panic::set_hook(Box::new(|info| {
+        if let Some(l) = info.location() {
+            let f = l.file();
+            let f = f.rsplit("/ddnnife/").next().unwrap_or(f);
+            *PANIC_AT.lock().unwrap() = format!("{}:{}", f, l.line());
+        }
+    }));
+}
+
 pub fn run(kind: &str, ctx: &Ctx, out: &mut dyn Write) {
+    install_hook();
     if kind == "c11h" {
         return run_histories(out);
     }
